@@ -441,6 +441,7 @@ def alphabet(lits):
 
 
 DIGEST = bytes([1, 32]) + bytes(range(32))
+PDIGEST = bytes([2, 32]) + bytes(range(32))      # a ParametersSha256Digest component: an ORDINARY component for a schema
 
 
 def names_upto(alpha, maxlen):
